@@ -4,6 +4,7 @@
 import Nexus.Codec.Wire
 import Nexus.Codec.MsgPackProofs
 import Nexus.Codec.CBORProofs
+import Nexus.Codec.JsonProofs
 import Nexus.Codec.MsgLemmas
 
 namespace Nexus.Codec
@@ -21,7 +22,7 @@ mutual
         exact ⟨by omega, validListB_mono h l hv.2⟩
     | .dict d, hv => by
         simp [validB] at hv ⊢
-        exact ⟨by omega, validDictB_mono h d hv.2⟩
+        exact ⟨⟨by omega, hv.1.2⟩, validDictB_mono h d hv.2⟩
   theorem validListB_mono {L L' : Nat} (h : L ≤ L') : ∀ (l : List CVal), validListB L l = true → validListB L' l = true
     | [], _ => rfl
     | v :: vs, hv => by
